@@ -1,8 +1,9 @@
-from specs.common import run, ASSUME_COMMON
+from specs.common import run, memcheck, ASSUME_COMMON
 
 SPEC = {
     "runs": [
         run("e1-model", "c05_span_identity", "asan", 16000, 1000000),
+        memcheck("c05_span_identity", 800, 40000),
         run("e2-threads", "c05_span_identity", "tsan", 600, 24000, params={"mode": "threads"},
             timeout={"quick": 900, "thorough": 5400}),
         run("e5-fork", "c05_span_identity", "asan", 48, 960, sq=2, st=4, params={"mode": "fork"}),
